@@ -146,8 +146,38 @@ class Lab(object):
 
         self.Script = Script
 
+        import io as _io
+
+        from clikit.io.input_stream import StreamInputStream
+
+        class FileScript(StreamInputStream):
+            """The same script read through the library's own wrapper of a text file object (what a console I/O reads from)."""
+
+            def __init__(self, lines):
+                StreamInputStream.__init__(self, _io.StringIO("".join(lines)))
+                self.reads = 0
+                self.eofs = 0
+                self.char_reads = 0
+                self.on_read = None
+                self.marks = []
+
+            def read_line(self, length=None):
+                self.reads += 1
+                if self.on_read is not None:
+                    self.marks.append(self.on_read())
+                r = StreamInputStream.read_line(self, length)
+                if r == "":
+                    self.eofs += 1
+                    if self.eofs > EOF_BUDGET:
+                        raise ReadBudgetExceeded()
+                return r
+
+        self.FileScript = FileScript
+        self.made = 0
+
     def io(self, lines):
-        st = self.Script(lines)
+        self.made += 1
+        st = self.FileScript(lines) if self.made % 5 == 0 else self.Script(lines)  # every fifth dialogue reads from a file object
         out, err = self.BufferedOutputStream(), self.BufferedOutputStream()
         io = self.IO(self.Input(st), self.Output(out, self.PlainFormatter()), self.Output(err, self.PlainFormatter()))
         st.on_read = lambda: len(err.fetch())
